@@ -142,7 +142,36 @@ def deepen(rng, prog):
     for a, b in ((leaf1, leaf3), (leaf3, leaf2), (leaf2, mid1), (mid1, leaf3)):
         prog["frames"][a]["precur"].append({"k": "go", "far": b, "needs": [need("recurred", False, op=">=", goal=rng.randint(1, 2))], "transit": []})
     prog["framers"][f]["first"] = rng.choice((leaf1, leaf3, mid2))
+    # a transition owned by the top frame whose target keeps the middle frame (only the leaf changes)
+    prog["frames"][top]["precur"].insert(0, {"k": "go", "far": rng.choice((leaf2, leaf3)),
+                                             "needs": [need("recurred", False, op="==", goal=rng.randint(1, 3))], "transit": []})
+    if rng.random() < 0.7:
+        clocked_aux(rng, prog, mid2)
     return True
+
+
+def clocked_aux(rng, prog, host):
+    """a fresh plain auxiliary on frame `host` whose own frames move on repeat / timeout"""
+    i = 0
+    while "x%d" % i in prog["framers"]:
+        i += 1
+    a = "x%d" % i
+    prog["framers"][a] = {"sched": "aux", "period": 0, "first": "", "frames": []}
+    k1 = _new_frame(prog, a)
+    k2 = _new_frame(prog, a)
+    k3 = _new_frame(prog, a)
+    prog["framers"][a]["first"] = k1
+    if rng.random() < 0.5:
+        n = need("recurred", False, op=">=", goal=rng.randint(1, 4))
+        sugar = "repeat"
+    else:
+        n = need("elapsed", False, op=">=", goal=rng.randint(1, 4) * prog["tick"])
+        sugar = "timeout"
+    prog["frames"][k1]["precur"].append({"k": "go", "far": k2, "needs": [n], "transit": [], "sugar": sugar})
+    prog["frames"][k2]["precur"].append({"k": "go", "far": k3, "needs": [need("recurred", False, op=">=", goal=rng.randint(1, 3))],
+                                         "transit": [], "sugar": "repeat"})
+    prog["frames"][host]["auxes"].append(a)
+    return a
 
 
 def exit_bids(rng, prog):
